@@ -86,6 +86,9 @@ type World struct {
 	WritePlan func(c *Conn, p []byte) WriteDecision
 	ReadPlan  func(c *Conn, avail int) ReadDecision
 	PointPlan func(w *World, point string, count int) PointAction
+	// CloseErr is what every connection's Close returns (the connection gets
+	// closed regardless).
+	CloseErr error
 
 	Broker *Broker
 	Store  *Store
